@@ -1,0 +1,10 @@
+//go:build verif
+
+package statsd
+
+import "github.com/atlassian/gostatsd/pkg/stats"
+
+// VerifEmitChan is the send side of the channel Run's emit arm receives from (RunMetrics feeds it
+// through scheduleEmit, which never blocks and may drop; the C11 check of /verif needs a blocking send:
+// when it completes, Run was idle in its select, i.e. the previous arm and its refill are done).
+func (ch *CloudHandler) VerifEmitChan() chan<- stats.Statser { return ch.emitChan }
